@@ -24,7 +24,7 @@ def trim(s):
 
 def rand_comp(rng, blank_ok=False):
     n = rng.choice([0, 1, 1, 2, 3, 5]) if blank_ok else rng.choice([1, 1, 2, 3, 5])
-    alphabet = ["a", "b", " ", ",", "=", "\\", "\t", "é", "　", "x", "/", "-", " ", "😀", " "]
+    alphabet = ["a", "b", " ", ",", "=", "\\", "\t", "é", "　", "x", "/", "-", " ", "😀", '"', "'", " "]
     s = "".join(rng.choice(alphabet) if rng.random() < 0.8 else chr(rng.choice([rng.randrange(0x21, 0x7F), rng.randrange(0xA1, 0xD7FF), rng.randrange(0xE000, 0x10FFFF)])) for _ in range(n))
     while s.endswith("\\"):
         s = s[:-1] + "z"
@@ -99,7 +99,9 @@ def run(ck):
     from .. import driver_common as dc
     nd = 60 if ck.tier == "quick" else 600
     arglists = [[(False, "k", "a"), (True, "other", ""), (False, "k", "b")], [(True, "v", ""), (True, "v", "")], [(False, "a", ""), (False, "a", "x"), (False, "b", "x")],
-                [(False, "include", "a"), (False, "include", "a")]]
+                [(False, "include", "a"), (False, "include", "a")],
+                # values and keys in quotation marks are delivered with them: nothing on the way removes a layer of quoting
+                [(False, "name", '"x y"'), (False, "a", "''"), (False, "q", "'single'")], [(False, '"k"', '"'), (False, "u", "\"'"), (False, "e", '""')], [(False, "v", "'a\"b'"), (True, "'w'", "")]]
     while len(arglists) < nd:
         args = []
         keys = [rand_comp(rng) for _ in range(3)]
@@ -147,6 +149,31 @@ def run(ck):
                     tail = bytes.fromhex(got[1])[len(prefix):] if got[1] not in ("none", "crash") else got[1]
                     ck.violation("delivered", "arguments-changed-on-the-way", " ".join("--generator=%s%s" % (n2, "," + a2 if a2 else "") for n2, a2, _ in gens),
                                  "%s started once and given %r" % (nm, [(trim(k_), trim(v_)) for _, k_, v_ in a]), "started %d time(s), argument bytes %r" % (got[0], tail))
+    # a generator that fails is named by the path as it was written, whatever else names the same file
+    flines, fmeta = [], []
+    for _ in range(40 if ck.tier == "quick" else 400):
+        gens = []
+        for pos in range(rng.choice([1, 1, 2, 3])):
+            how = rng.choice(["exit1", "exit1", "missing", "sigkill", "reply"])
+            sp = rng.choice(["abs", "rel", "rel", "dot", "dslash", "updown"])
+            gens.append(("gen-%s-%d" % (how, pos), rng.choice([None, "k=v"]), dc.enc_reply([]) if how == "reply" else None, sp))
+        flines.append(dc.run_line(False, extra, gens, src))
+        fmeta.append(gens)
+    of = [dc.parse_run(x) for x in dc.run_all(flines)]
+    ck.stream("failing-generator-path", description="1..3 generators that fail (exit status, missing executable, killed) or work, their paths written absolutely, relative to the working directory, with a '.' or '..' component "
+              "or a doubled slash: every failing generator is reported once, by the path as written")
+    for gens, x, line in zip(fmeta, of, flines):
+        ck.count("failing-generator-path", line, kind="+".join(sorted({g[3] for g in gens})))
+        if x is None:
+            ck.violation("failing-generator-path", "crash", line[:200], "a run", "no result")
+            continue
+        msgs = [d.get("message", "") for d in dc.json_diags(x["stderr"]) if d.get("severity") == "error"]
+        for nm, _, reply, sp in gens:
+            tail = {"abs": "/gens/%s'" % nm, "rel": "'../gens/%s'" % nm, "dot": "/gens/./%s'" % nm, "dslash": "/gens//%s'" % nm, "updown": "/gens/../gens/%s'" % nm}[sp]
+            hits = [m_ for m_ in msgs if "run code-generator" in m_ and tail in m_ and (sp != "abs" or not any(t in m_ for t in ("/./", "//", "/../")))]
+            if (reply is None) != (len(hits) == 1):
+                ck.violation("failing-generator-path", "failing-generator-not-named-as-written", " ".join("%s (%s)" % (g[0], g[3]) for g in gens),
+                             ("one error naming %s as written (%s)" % (nm, tail)) if reply is None else "no error about %s" % nm, str(msgs)[:400], signature={"spelling": sp})
     ck.extra["exhaustive"] = True
     ck.extra["rule"] = "exhaustive: all 3906 strings of length <= 5 over 5 characters; %d random written specifications over the whole Unicode range; 300 repeated -G command lines. Distinct by case text; all non-trivial." % n
     ck.partial.append("clap's own option parsing is exercised, not modelled; the encoding of the argument dictionary is the codec's (C10)")
